@@ -298,7 +298,7 @@ fn main() {
     }
     let mut rep = Report::new(&cli, "fault_enumeration");
 
-    let all = cases(cli.thorough());
+    let all = cases(cli.level() >= 1);
     let n_cases = all.len();
     let all = Arc::new(all);
     let next = Arc::new(std::sync::atomic::AtomicUsize::new(0));
